@@ -80,6 +80,7 @@ type Case struct {
 	Dir        string
 	MroDir     string
 	PsDir      string
+	physPsDir  string // the pipestance directory with symlinks resolved, if it differs from PsDir
 	SpecPath   string
 	EventsPath string
 	TracePath  string
@@ -122,6 +123,19 @@ func NewCase(buildDir, dir string, p *pgen.Program, tweak func(*pgen.Spec)) (*Ca
 	c.Spec.PsRoot = c.PsDir
 	if tweak != nil {
 		tweak(c.Spec)
+	}
+	if c.Spec.SymlinkedParent {
+		// <dir>/link -> <dir>/real; mrp is given <dir>/link/ps
+		real := filepath.Join(dir, "real")
+		if err := os.MkdirAll(real, 0755); err != nil {
+			return nil, err
+		}
+		if err := os.Symlink(real, filepath.Join(dir, "link")); err != nil && !os.IsExist(err) {
+			return nil, err
+		}
+		c.PsDir = filepath.Join(dir, "link", "ps")
+		c.physPsDir = filepath.Join(real, "ps")
+		c.Spec.PsRoot = c.PsDir
 	}
 	return c, c.WriteSpec()
 }
@@ -572,6 +586,9 @@ var uniqRe = regexp.MustCompile(`-u[0-9a-f]{10}`)
 // Canon replaces the pipestance root by $PS and strips uniquifiers.
 func (c *Case) Canon(s string) string {
 	s = strings.ReplaceAll(s, c.PsDir, "$PS")
+	if c.physPsDir != "" {
+		s = strings.ReplaceAll(s, c.physPsDir, "$PS")
+	}
 	return uniqRe.ReplaceAllString(s, "")
 }
 
